@@ -347,14 +347,29 @@ class NativeCase:
         meth = getattr(self.real_self, self.node.name)
         names = [a.arg for a in self.node.args.args[1:]]
         call_args = [self.real_args[n] for n in names]
+        import signal
+
+        class _Timeout(BaseException):
+            pass
+
+        def _alarm(signum, frame):
+            raise _Timeout()
+        old = signal.signal(signal.SIGALRM, _alarm)
+        signal.setitimer(signal.ITIMER_REAL, 1.0)
         try:
             res = ('return', meth(*call_args))
+        except _Timeout:
+            # the real method did not return within a second on a ten-byte input (e.g. a repeater over a zero-width element)
+            return ('timeout', 'no result within 1 s; ' + self.describe(('timeout', None)))
         except Exception as e:      # noqa
             res = ('raise', e)
             if not isinstance(e, C.ConstructError) and self.raised_inside_stub(e):
                 # a stub sub-construct raised a foreign exception for this value (e.g. len() of an int): the sample violates
                 # the interface assumption on sub-constructs, it says nothing about the class under check
                 return ('unsuitable', 'stub raised a foreign exception')
+        finally:
+            signal.setitimer(signal.ITIMER_REAL, 0)
+            signal.signal(signal.SIGALRM, old)
         kind = res[0]
         cases = [c for c in self.c.cases_for(self.pre) if c.kind == kind]
         try:
@@ -462,11 +477,15 @@ class HeapStub(dict):
 HEAP = HeapStub()
 
 
-def search(contract, src, C, rng, budget, model='bytesio'):
+def search(contract, src, C, rng, budget, model='bytesio', seconds=25):
     """-> (description of a violation | None, stats)"""
-    stats = {'ok': 0, 'resample': 0, 'unsuitable': 0, 'unsupported': 0}
+    import time
+    stats = {'ok': 0, 'resample': 0, 'unsuitable': 0, 'unsupported': 0, 'timeout': 0}
     variants = contract.variants
+    deadline = time.time() + seconds
     for i in range(budget):
+        if time.time() > deadline or stats['timeout'] >= 5:
+            break
         variant = rng.choice(variants)
         nc = NativeCase(contract, src, C, rng, model, variant)
         try:
